@@ -33,7 +33,8 @@ type Schema struct {
 	typ    types.Type // record type (nil for raw)
 	keyFn  *FuncVal   // func(T) []byte, key after the prefix
 	rawLen int        // >0: raw fixed-length value
-	bound  int        // enumeration bound override (0 = default)
+	bound  int        // enumeration bound override
+	boundSet bool
 }
 
 type Enum struct {
@@ -325,7 +326,7 @@ func (m *Machine) enumerate(st *StoreState, prefix string) *Enum {
 		}
 	}
 	bound := m.eng.cfg.EnumBound
-	if sc != nil && sc.bound > 0 {
+	if sc != nil && sc.boundSet {
 		bound = sc.bound
 	}
 	room := bound - len(en.entries)
